@@ -39,6 +39,8 @@ pub enum Op {
     /// write attempt through the read-only accessor
     RoSet { view: usize, k: Vec<u8> },
     RoRemove { view: usize, k: Vec<u8> },
+    /// several get / set / remove on ONE mutable view instance (g = get, s = set, r = remove)
+    Seq { view: usize, steps: Vec<(u8, Vec<u8>, Vec<u8>)> },
     /// raw writer on the base
     RawSet { k: Vec<u8>, v: Vec<u8> },
     RawRemove { k: Vec<u8> },
@@ -261,7 +263,7 @@ impl Engine for Pfx07 {
             Tier::Thorough => 150,
         };
         let nops = 5 + rng.usize(max_ops);
-        let mut w = [6u32, 3, 3, 8, 1, 1, 2, 1, 4];
+        let mut w = [6u32, 3, 3, 8, 1, 1, 2, 1, 4, 3];
         for x in w.iter_mut() {
             if rng.chance(1, 6) {
                 *x = 0;
@@ -292,6 +294,13 @@ impl Engine for Pfx07 {
                 5 => Op::RoRemove { view, k: small_key(rng) },
                 6 => Op::RawSet { k: small_key(rng), v: val() },
                 7 => Op::RawRemove { k: small_key(rng) },
+                9 => {
+                    // get / remove / get and similar on the same key and the same view instance
+                    let k = small_key(rng);
+                    let n = 2 + rng.usize(4);
+                    let steps = (0..n).map(|_| (rng.below(3) as u8, if rng.chance(3, 4) { k.clone() } else { small_key(rng) }, val())).collect();
+                    Op::Seq { view, steps }
+                }
                 _ => {
                     let plen = encode_path(&views[view].iter().map(|s| s.bytes()).collect::<Vec<_>>()).len();
                     let cut = if rng.chance(1, 2) { plen } else { rng.usize(plen + 1) };
@@ -408,6 +417,52 @@ impl Engine for Pfx07 {
                         }
                     }
                 }
+                Op::Seq { view, steps } => {
+                    let vi = view % nv;
+                    let prefix = prefixes[vi].clone();
+                    let mut local = raw.clone();
+                    let r = catch_unwind(AssertUnwindSafe(|| {
+                        with_view_mut(&mut app, &paths[vi], |s| {
+                            let mut bad: Option<String> = None;
+                            for (kind, k, v) in steps {
+                                let mut rk = prefix.clone();
+                                rk.extend_from_slice(k);
+                                match kind % 3 {
+                                    0 => {
+                                        let got = s.get(k);
+                                        if got != local.get(&rk).cloned() && bad.is_none() {
+                                            bad = Some(format!("get({}) on a view instance that was used before returned {:?}, expected {:?}", hex(k), got.map(|x| hex(&x)), local.get(&rk).map(|x| hex(x))));
+                                        }
+                                    }
+                                    1 => {
+                                        if !v.is_empty() {
+                                            s.set(k, v);
+                                            local.insert(rk, v.clone());
+                                        }
+                                    }
+                                    _ => {
+                                        s.remove(k);
+                                        local.remove(&rk);
+                                    }
+                                }
+                            }
+                            bad
+                        })
+                    }));
+                    match r {
+                        Err(p) => {
+                            ctx.fail("C07.panic", format!("sequence on one view panicked: {}", panic_message(&p)));
+                            break;
+                        }
+                        Ok(Some(d)) => {
+                            ctx.fail("C07.get_mismatch", format!("view prefix {}: {}", short(&prefixes[vi]), d));
+                            break;
+                        }
+                        Ok(None) => {}
+                    }
+                    raw = local;
+                    ctx.stats.probe("same_view_sequence");
+                }
                 Op::RoSet { view, k } => {
                     let vi = view % nv;
                     let r = catch_unwind(AssertUnwindSafe(|| {
@@ -502,7 +557,7 @@ impl Engine for Pfx07 {
                 break;
             }
             // after every write: every view equals its model window (full range, one order per step)
-            if matches!(op, Op::Set { .. } | Op::Remove { .. } | Op::RawSet { .. } | Op::RawRemove { .. } | Op::RawNear { .. }) {
+            if matches!(op, Op::Set { .. } | Op::Remove { .. } | Op::Seq { .. } | Op::RawSet { .. } | Op::RawRemove { .. } | Op::RawNear { .. }) {
                 let desc = ctx.stats.steps % 2 == 0;
                 for vi in 0..nv {
                     if ctx.viol.is_empty() {
@@ -563,6 +618,7 @@ impl Engine for Pfx07 {
                             Op::Remove { view, k } => Op::Remove { view: remap(view)?, k },
                             Op::Get { view, k } => Op::Get { view: remap(view)?, k },
                             Op::Range { view, start, end, desc } => Op::Range { view: remap(view)?, start, end, desc },
+                            Op::Seq { view, steps } => Op::Seq { view: remap(view)?, steps },
                             Op::RoSet { view, k } => Op::RoSet { view: remap(view)?, k },
                             Op::RoRemove { view, k } => Op::RoRemove { view: remap(view)?, k },
                             Op::RawNear { view, cut, bump, tail, v } => Op::RawNear { view: remap(view)?, cut, bump, tail, v },
